@@ -1,10 +1,15 @@
 #!/bin/bash
-# Runs the repository's pinned baseline (guard off) and compares with BASELINE.json stable_pass.
-cd /repo && env -u PLASTEX_VERIF /venv/bin/python -m pytest -ra -q -p no:cacheprovider --timeout=900 --continue-on-collection-errors --junitxml=/tmp/verif-baseline.junit.xml -n 8 "$@" > /tmp/verif-baseline.log 2>&1
-/venv/bin/python - <<'PY'
-import json, xml.etree.ElementTree as ET
+# ./run_baseline.sh [repo-dir]   (default /repo)
+# Runs the repository's pinned baseline (hook guard off) in <repo-dir> and compares with
+# BASELINE.json's stable_pass list.  Exit 0 iff none of the 360 stable tests is missing.
+DIR="${1:-/repo}"
+OUT="$(mktemp -d /tmp/verif-baseline.XXXXXX)"
+cd "$DIR" && env -u PLASTEX_VERIF PYTHONPATH="$DIR" /venv/bin/python -m pytest -ra -q -p no:cacheprovider --timeout=900 \
+    --continue-on-collection-errors --junitxml="$OUT/junit.xml" -n 6 > "$OUT/log" 2>&1
+/venv/bin/python - "$OUT/junit.xml" <<'PY'
+import json, sys, xml.etree.ElementTree as ET
 base=json.load(open('/root/.vp/BASELINE.json'))
-t=ET.parse('/tmp/verif-baseline.junit.xml')
+t=ET.parse(sys.argv[1])
 passed=set()
 for tc in t.iter('testcase'):
     if not any(ch.tag in('failure','error','skipped') for ch in tc):
@@ -13,4 +18,8 @@ want=set(base['stable_pass'])
 missing=sorted(want-passed)
 print('passed',len(passed),'baseline',len(want),'missing',len(missing))
 for m in missing[:20]: print('  MISSING',m)
+sys.exit(1 if missing else 0)
 PY
+RC=$?
+rm -rf "$OUT"
+exit $RC
